@@ -197,9 +197,18 @@ def run_item(item):
                 s.new_path = 'uniq%d_%d_%s' % (k, j, s.new_path.replace('/', '_'))
                 if s.kind not in ('renamed_changed',):
                     s.old_path = s.new_path
+            last = None
+            if d.sections[-1].hunks and d.sections[-1].hunks[-1].lines and d.sections[-1].hunks[-1].lines[-1][0] in '-+ ':
+                # the last line of the diff is recognisable: it must be out before whatever follows the diff (a commit line
+                # may follow directly - git log -p --format=tformat:... - while removed/added lines are still buffered)
+                h = d.sections[-1].hunks[-1]
+                last = 'zq%dlast' % k
+                h.lines[-1] = (h.lines[-1][0], last)
             for l in d.lines():
                 in_lines.append(l.encode())
             segs.append(('anchor', d.sections[0].new_path.encode()))
+            if last:
+                segs.append(('anchor', last.encode()))
         if layout == 'text-only':
             add_text(rng.randint(1, 25))
         elif layout == 'text-then-diff':
